@@ -1,4 +1,130 @@
 package main
 
-// runMutants is the thorough tier's mutation-witness pass (see mutants_run.go).
-func runMutants(pc *PropertyCheck, r *Report, repo, verif string) {}
+import (
+	"encoding/json"
+	"fmt"
+	"os"
+	"os/exec"
+	"path/filepath"
+	"sort"
+	"strings"
+	"sync"
+)
+
+// runMutants is the thorough tier's mutation-witness pass. For the property
+// under check it takes
+//
+//   - /verif/mutants/<ID>-*.patch   single-edit mutants written for the rules
+//     (tools/mkmutants.py), including the reverse patches of repaired defects;
+//   - /verif/seeded/<ID>-*/patch.diff  changes written by independent
+//     sub-agents that saw only the property text,
+//
+// applies each one to a scratch copy of the repository under a mktemp
+// directory outside /repo and /verif, runs this same checker (quick tier, no
+// evidence) against the copy in a fresh process, and requires a violation.
+// A patch that no longer applies to the current tree is reported as skipped.
+// The copy is removed as soon as it has been judged.
+func runMutants(pc *PropertyCheck, r *Report, repo, verif string) {
+	type mutant struct{ name, patch string }
+	var ms []mutant
+	own, _ := filepath.Glob(filepath.Join(verif, "mutants", pc.ID+"-*.patch"))
+	sort.Strings(own)
+	for _, f := range own {
+		ms = append(ms, mutant{"mutant " + strings.TrimSuffix(filepath.Base(f), ".patch"), f})
+	}
+	seeded, _ := filepath.Glob(filepath.Join(verif, "seeded", "*", "meta.json"))
+	sort.Strings(seeded)
+	for _, mf := range seeded {
+		b, err := os.ReadFile(mf)
+		if err != nil {
+			continue
+		}
+		var meta struct {
+			Property string          `json:"property"`
+			CaughtBy map[string]bool `json:"caught_by"`
+		}
+		if json.Unmarshal(b, &meta) != nil {
+			continue
+		}
+		if meta.CaughtBy[pc.ID] {
+			dir := filepath.Dir(mf)
+			ms = append(ms, mutant{"seeded " + filepath.Base(dir), filepath.Join(dir, "patch.diff")})
+		}
+	}
+	if len(ms) == 0 {
+		return
+	}
+	self, err := os.Executable()
+	if err != nil {
+		r.Violate("MUTANT", "setup", "-", "cannot locate the checker binary: "+err.Error())
+		return
+	}
+	type result struct {
+		status, detail string
+	}
+	results := make([]result, len(ms))
+	sem := make(chan struct{}, 8)
+	var wg sync.WaitGroup
+	for i, m := range ms {
+		wg.Add(1)
+		go func(i int, m mutant) {
+			defer wg.Done()
+			sem <- struct{}{}
+			defer func() { <-sem }()
+			tmp, err := os.MkdirTemp("", "prismcheck-mutant-")
+			if err != nil {
+				results[i] = result{"error", err.Error()}
+				return
+			}
+			defer os.RemoveAll(tmp)
+			dst := filepath.Join(tmp, "repo")
+			if out, err := exec.Command("rsync", "-a", "--exclude", ".git", repo+"/", dst+"/").CombinedOutput(); err != nil {
+				results[i] = result{"error", "copy failed: " + string(out)}
+				return
+			}
+			ap := exec.Command("git", "apply", "--unsafe-paths", "--directory="+dst, m.patch)
+			ap.Dir = tmp
+			if out, err := ap.CombinedOutput(); err != nil {
+				// try patch(1)-style application from inside the copy
+				ap2 := exec.Command("git", "apply", m.patch)
+				ap2.Dir = dst
+				if out2, err2 := ap2.CombinedOutput(); err2 != nil {
+					results[i] = result{"skipped", "patch no longer applies to the current tree: " + trunc(strings.TrimSpace(string(out)+" "+string(out2)), 160)}
+					return
+				}
+			}
+			cmd := exec.Command(self, "-property", pc.ID, "-tier", "quick", "-repo", dst, "-verif", verif, "-noevidence")
+			cmd.Env = append(os.Environ(), "GOCACHE="+filepath.Join(tmp, "gocache"))
+			out, _ := cmd.CombinedOutput()
+			code := cmd.ProcessState.ExitCode()
+			first := ""
+			for _, l := range strings.Split(string(out), "\n") {
+				l = strings.TrimSpace(l)
+				if strings.HasPrefix(l, "VIOLATED") || strings.HasPrefix(l, "UNDECIDED") {
+					first = l
+					break
+				}
+			}
+			if code == 1 && first != "" {
+				results[i] = result{"detected", trunc(first, 260)}
+			} else {
+				results[i] = result{"missed", fmt.Sprintf("exit %d: %s", code, trunc(strings.TrimSpace(string(out)), 200))}
+			}
+		}(i, m)
+	}
+	wg.Wait()
+	var table []map[string]string
+	for i, m := range ms {
+		res := results[i]
+		table = append(table, map[string]string{"mutant": m.name, "status": res.status, "report": res.detail})
+		switch res.status {
+		case "detected":
+			r.Hold("MUTANT", m.name, "-", "detected: "+res.detail)
+		case "skipped":
+			r.Note("MUTANT", m.name, "-", res.detail)
+		default:
+			r.Violate("MUTANT", m.name, "-", "the change breaks the property but the check did not report it ("+res.detail+"): the checker has lost sensitivity")
+		}
+	}
+	r.Extra["mutation_witnesses"] = table
+}
